@@ -46,7 +46,14 @@ class SimPath(object):
     def abspath(self, p):
         if not posixpath.isabs(p):
             p = posixpath.join(self._fs.cwd, p)
-        return posixpath.normpath(p)
+        p = posixpath.normpath(p)
+        # simulated install location of a real directory (the package may
+        # live anywhere, e.g. below another directory of the same name)
+        for real, sim in self._fs.path_map:
+            if p == real or p.startswith(real + '/'):
+                p = sim + p[len(real):]
+                break
+        return p
 
     def exists(self, p):
         p = self.abspath(p)
@@ -86,6 +93,7 @@ class SimFS(object):
         self.env = dict(env or {})
         self.cwd = cwd
         self.log = []
+        self.path_map = []        # [(real prefix, simulated prefix)]
         self.faults = []          # list of fault dicts (the plan)
         self.fired_counts = {}
         self.os = SimOS(self)
